@@ -395,13 +395,24 @@ def c16_e(ctx: Ctx):
                 out.append(ctx.ok(R, cb, c, "_convert_bool recognises the spellings that export writes ('True' / 'False') by lower-casing before the look-up", construct=kb))
     from .lints import nested_builder
     out += nested_builder(ctx, R)
+    PROBES = {"int": (["0", "12", "-3", "+4", "1000000"], ["1.0", "a", "", "1e3"]),
+              "float": (["0.25", "10.75", "-1.125", "3.0", "7", "+2.5", ".5"], ["abc", "", "1.2.3"]),
+              "bool": (["True", "False", "true", "false", "0", "1"], ["", "a/b"]),
+              "str": (["abc", "x_1", "A"], ["", "a/b"])}
     for tname, pat in sorted(types.items()):
         try:
             import re
-            re.compile(pat)
-            out.append(ctx.ok(R, None, None, f"RE_TYPES[{tname!r}] = {pat!r} compiles", construct=f"RE_TYPES|{tname}", nontrivial=False))
+            cre = re.compile(pat)
         except Exception as e:
             out.append(ctx.viol(R, None, None, f"RE_TYPES[{tname!r}] does not compile: {e}", construct=f"RE_TYPES|{tname}"))
+            continue
+        yes, no = PROBES.get(tname, ([], []))
+        wrong = [t for t in yes if not cre.fullmatch(t)] + [t for t in no if cre.fullmatch(t)]
+        if wrong:
+            out.append(ctx.viol(R, None, None, f"signac/import_export.py: RE_TYPES[{tname!r}] = {pat!r} classifies {wrong} differently from what a {tname} field must accept: directories "
+                                f"whose {tname} value is written like that (e.g. a decimal with two or more fractional digits) are silently not imported", construct=f"RE_TYPES|{tname}"))
+        else:
+            out.append(ctx.ok(R, None, None, f"RE_TYPES[{tname!r}] = {pat!r} compiles and accepts / rejects the probe spellings of a {tname} field", construct=f"RE_TYPES|{tname}", nontrivial=bool(yes)))
     return out
 
 
